@@ -1,13 +1,134 @@
 /-
-  Avt.Spec.C05 — oracle of property C05 (decidable predicates evaluated on implementation states;
-  the same definitions the theorems in Avt/Props/C05.lean are stated with).
+  Avt.Spec.C05 — oracle of property C05, cursor movement and addressing (decidable definitions
+  evaluated on implementation states; the same definitions the theorems in Avt/Props/C05.lean are
+  stated with).
+
+  `moveSpec t f` is the complete terminal after a pure cursor command `f`, written as closed
+  formulas in the vocabulary of the property (distance, screen edge, top/bottom margin, origin
+  mode, wrap-pending column), not as a copy of `src/terminal.rs`.  Whatever `moveSpec` does not
+  mention is unchanged — in particular both buffers (no cell changes), pen, modes, tabs, saved
+  contexts and dirty flags.
+
+  Covered (`covered t f`): BS, CR, HT, CHT n, CBT n, CUU, CUD, CUF (CSI C and CSI a), CUB, CNL, CPL,
+  VPR (CSI e), CHA (CSI G and CSI `), CUP/HVP, VPA, DECSTBM, DECSET/DECRST ?6 (origin mode), and
+  LF/IND/VT/FF (all `Function.lf`), NEL, RI when the cursor is NOT on the bottom resp. top margin.
+  Tab moves go through C18's `nthAfter` / `nthBefore`.
 -/
 import Avt.Spec.Base
+import Avt.Spec.C18
 
 namespace Avt.Spec.C05
 open Avt Avt.Spec
 
-def checkStep (_ev : StepEv) : List Verdict := []
+/-! ### vocabulary -/
+
+/-- parameter default: missing or 0 means 1 -/
+def arg (n : Nat) : Nat := if n = 0 then 1 else n
+
+def lastCol (t : Terminal) : Nat := t.cols - 1
+def lastRow (t : Terminal) : Nat := t.rows - 1
+
+/-- the column the cursor is really in: the wrap-pending column (`col = cols`) is the last column -/
+def realCol (t : Terminal) : Nat := min t.cursor.col (lastCol t)
+
+/-- place the cursor (this always clears a pending wrap); nothing else changes -/
+def cursorAt (t : Terminal) (col row : Nat) : Terminal :=
+  { t with cursor := { t.cursor with col := col, row := row }, pendingWrap := false }
+
+/-- row reached by moving up `n`: stop at the top margin unless the move starts above it -/
+def up (t : Terminal) (n : Nat) : Nat :=
+  if t.cursor.row < t.topMargin then t.cursor.row - n else max t.topMargin (t.cursor.row - n)
+
+/-- row reached by moving down `n`: stop at the bottom margin unless the move starts below it -/
+def down (t : Terminal) (n : Nat) : Nat :=
+  if t.cursor.row > t.bottomMargin then min (lastRow t) (t.cursor.row + n)
+  else min t.bottomMargin (t.cursor.row + n)
+
+/-- column reached by moving left `n` (counted from the last real column when wrap is pending) -/
+def left (t : Terminal) (n : Nat) : Nat := realCol t - n
+
+/-- column reached by moving right `n` -/
+def right (t : Terminal) (n : Nat) : Nat := min (t.cursor.col + n) (lastCol t)
+
+/-- absolute column `c` (0-based), clamped to the screen -/
+def absCol (t : Terminal) (c : Nat) : Nat := min c (lastCol t)
+
+/-- absolute row `r` (0-based): clamped to the screen, or — in origin mode — relative to and
+    clamped within the scroll region -/
+def absRow (t : Terminal) (r : Nat) : Nat :=
+  if t.originMode then min (t.topMargin + r) t.bottomMargin else min r (lastRow t)
+
+/-- the margins after DECSTBM `a;b`: `a` defaults to 1, `b` to the number of rows; a pair that is
+    not `top < bottom < rows` is ignored -/
+def newMargins (t : Terminal) (a b : Nat) : Nat × Nat :=
+  let top := arg a - 1
+  let bottom := (if b = 0 then t.rows else b) - 1
+  if top < bottom ∧ bottom < t.rows then (top, bottom) else (t.topMargin, t.bottomMargin)
+
+/-- one row down when off the bottom margin: exactly one row, not past the last row (on the last
+    row nothing at all happens, a pending wrap included) -/
+def oneDown (t : Terminal) : Terminal :=
+  if t.cursor.row < lastRow t then cursorAt t (realCol t) (t.cursor.row + 1) else t
+
+/-- is `f` a pure cursor command in state `t`? -/
+def covered (t : Terminal) : Function → Bool
+  | .bs | .cr | .ht | .cht _ | .cbt _ | .cuu _ | .cud _ | .cuf _ | .cub _ | .cnl _ | .cpl _
+  | .vpr _ | .cha _ | .cup _ _ | .vpa _ | .decstbm _ _ => true
+  | .lf | .nel => t.cursor.row != t.bottomMargin
+  | .ri => t.cursor.row != t.topMargin
+  | .decset ms | .decrst ms => !ms.isEmpty && ms.all (· == DecMode.origin)
+  | _ => false
+
+/-- the terminal after cursor command `f` -/
+def moveSpec (t : Terminal) : Function → Terminal
+  | .bs => cursorAt t (left t 1) t.cursor.row
+  | .cr => cursorAt t 0 t.cursor.row
+  | .ht => C18.tabForward t 1
+  | .cht n => C18.tabForward t (arg n)
+  | .cbt n => C18.tabBackward t (arg n)
+  | .cuu n => cursorAt t (realCol t) (up t (arg n))
+  | .cud n => cursorAt t (realCol t) (down t (arg n))
+  | .vpr n => cursorAt t (realCol t) (down t (arg n))
+  | .cnl n => cursorAt t 0 (down t (arg n))
+  | .cpl n => cursorAt t 0 (up t (arg n))
+  | .cuf n => cursorAt t (right t (arg n)) t.cursor.row
+  | .cub n => cursorAt t (left t (arg n)) t.cursor.row
+  | .cha n => cursorAt t (absCol t (arg n - 1)) t.cursor.row
+  | .cup r c => cursorAt t (absCol t (arg c - 1)) (absRow t (arg r - 1))
+  | .vpa n => cursorAt t (realCol t) (absRow t (arg n - 1))
+  | .lf => let t' := oneDown t
+           if t.newLineMode then cursorAt t' 0 t'.cursor.row else t'
+  | .nel => let t' := oneDown t
+            cursorAt t' 0 t'.cursor.row
+  | .ri => if 0 < t.cursor.row then cursorAt t (realCol t) (t.cursor.row - 1) else t
+  | .decstbm a b =>
+    let m := newMargins t a b
+    cursorAt { t with topMargin := m.1, bottomMargin := m.2 } 0 (if t.originMode then m.1 else 0)
+  | .decset _ => cursorAt { t with originMode := true } 0 t.topMargin
+  | .decrst _ => cursorAt { t with originMode := false } 0 0
+  | _ => t
+
+/-- the oracle's partial specification (only from states satisfying the invariant, which is the
+    hypothesis of the theorems) -/
+def specStep (t : Terminal) (f : Function) : Option Terminal :=
+  if TInv t && covered t f then some (moveSpec t f) else none
+
+/-! ### oracle -/
+
+def checkStep (ev : StepEv) : List Verdict :=
+  if ev.kind == .resize || ev.funs.isEmpty then [] else
+  match foldSpec specStep ev.funs ev.prev.terminal with
+  | some expected =>
+    let n := ev.next.terminal
+    [ check "move" true (n == afterCall ev.kind expected),
+      -- the property's own words, checked separately so that a failure names the clause
+      check "cursor" true (n.cursor == expected.cursor && n.pendingWrap == expected.pendingWrap),
+      check "margins-and-origin" true
+        (n.topMargin == expected.topMargin && n.bottomMargin == expected.bottomMargin
+          && n.originMode == expected.originMode),
+      check "no-cell-changes" true
+        (n.buffer.view == ev.prev.terminal.buffer.view && n.otherBuffer == ev.prev.terminal.otherBuffer) ]
+  | none => []
 
 def checkNew (_cols _rows : Nat) (_lim : Option Nat) (_st : Vt) : List Verdict := []
 
